@@ -8,7 +8,9 @@ import (
 	codectypes "github.com/cosmos/cosmos-sdk/codec/types"
 	sdk "github.com/cosmos/cosmos-sdk/types"
 
+	fxtypes "github.com/functionx/fx-core/v8/types"
 	"github.com/functionx/fx-core/v8/x/crosschain/types"
+	"github.com/functionx/fx-core/v8/zzverif/models"
 	"github.com/functionx/fx-core/v8/zzverif/rt"
 )
 
@@ -172,4 +174,75 @@ func VerifC01ClaimStep() {
 	} else {
 		rt.Cover("not-observed")
 	}
+}
+
+// VerifC01RebondNoDoubleVote: an oracle that voted for a still-pending event, was removed by
+// governance, withdrew its stake and later bonded again must not be able to add a second vote to
+// that same attestation (its power would be counted twice in the tally).
+func VerifC01RebondNoDoubleVote() {
+	e := verifNewEnv(100)
+	bank, _ := e.attachBankAndStaking()
+	view := &models.StakingView{}
+	e.k.stakingKeeper = view
+	p := e.setParams(verifParamSets[0], 20000)
+	// three oracles so that one vote is no quorum
+	for i := 0; i < 3; i++ {
+		e.verifAddOracle(i, true, 1, p.DelegateThreshold.Amount, 0)
+	}
+	e.k.SetLastTotalPower(e.ctx)
+	L := rt.U64("lastObservedEventNonce")
+	rt.Assume(rt.And(L >= 1, L < 1<<40))
+	e.k.SetLastObservedEventNonce(e.ctx, L)
+	for i := 0; i < 3; i++ {
+		e.k.SetLastEventNonceByOracle(e.ctx, verifOracleIdent(i).oracle, L)
+	}
+	id := verifOracleIdent(0)
+	mkClaim := func(nonce uint64) *types.MsgBridgeCallResultClaim {
+		return &types.MsgBridgeCallResultClaim{EventNonce: nonce, BlockHeight: 77, Nonce: 7, TxOrigin: verifAddrB, Success: true,
+			BridgerAddress: id.bridger.String(), ChainName: verifModule}
+	}
+	vote := func(nonce uint64) error {
+		anyClaim, err := codectypes.NewAnyWithValue(mkClaim(nonce))
+		if err != nil {
+			return err
+		}
+		_, err = MsgServer{Keeper: e.k}.Claim(e.ctx, &types.MsgClaim{ChainName: verifModule, BridgerAddress: id.bridger.String(), Claim: anyClaim})
+		return err
+	}
+	if vote(L+1) != nil {
+		rt.Assert(false, "harness: first vote refused")
+	}
+	rt.Cover("voted")
+	// governance removes the oracle; it goes offline; the stake unbonds and is released; it withdraws
+	e.k.SetProposalOracle(e.ctx, &types.ProposalOracle{Oracles: []string{verifOracleIdent(1).oracle.String(), verifOracleIdent(2).oracle.String()}})
+	o, _ := e.k.GetOracle(e.ctx, id.oracle)
+	o.Online = false
+	e.k.SetOracle(e.ctx, o)
+	e.k.SetLastTotalPower(e.ctx)
+	bank.SetBalance(o.GetDelegateAddress(verifModule), fxtypes.DefaultDenom, o.DelegateAmount)
+	if _, err := (MsgServer{Keeper: e.k}).UnbondedOracle(e.ctx, &types.MsgUnbondedOracle{ChainName: verifModule, OracleAddress: id.oracle.String()}); err != nil {
+		rt.Assert(false, "harness: unbond refused")
+	}
+	rt.Cover("unbonded")
+	// governance approves it again and it bonds again
+	e.k.SetProposalOracle(e.ctx, &types.ProposalOracle{Oracles: []string{id.oracle.String(), verifOracleIdent(1).oracle.String(), verifOracleIdent(2).oracle.String()}})
+	if _, err := (MsgServer{Keeper: e.k}).BondedOracle(e.ctx, &types.MsgBondedOracle{ChainName: verifModule, OracleAddress: id.oracle.String(), BridgerAddress: id.bridger.String(),
+		ExternalAddress: id.external, ValidatorAddress: sdk.ValAddress(make([]byte, 20)).String(), DelegateAmount: types.NewDelegateAmount(p.DelegateThreshold.Amount)}); err != nil {
+		rt.Assert(false, "harness: re-bond refused")
+	}
+	rt.Cover("re-bonded")
+	// it votes again: for the already observed nonce L (tolerated by the nonce rule for a fresh oracle), then L+1
+	_ = vote(L)
+	_ = vote(L + 1)
+	att := e.k.GetAttestation(e.ctx, L+1, mkClaim(L+1).ClaimHash())
+	if att != nil {
+		cnt := 0
+		for _, v := range att.Votes {
+			if v == id.oracle.String() {
+				cnt++
+			}
+		}
+		rt.Assert(cnt <= 1, "an oracle is never recorded twice on one attestation, not even after leaving and bonding again")
+	}
+	rt.Assert(e.k.GetLastObservedEventNonce(e.ctx) == L, "one oracle out of three equal ones cannot observe an event by voting twice")
 }
